@@ -55,3 +55,33 @@ Print Assumptions call_once_outcome.
 Theorem once_run_is_reachable : forall throws sched c evs, run ostep (oinit throws) sched = (c, evs) -> reach ostep (oinit throws) c.
 Proof. intros throws sched c evs H. exact (run_reach ostep sched _ _ _ H). Qed.
 Print Assumptions once_run_is_reachable.
+
+(* ---- the thread-id table of enumerable_thread_specific / combinable (EtsModel, EtsProofs) ----
+   For any number of threads, any number of accesses per thread and any interleaving of the deciding accesses
+   (fetch_add on my_count, loads and CAS on my_root, claims of slots): *)
+From OTV Require Import EtsModel EtsProofs.
+(* no array of the table is ever filled above one half, so every probe of table_lookup meets an empty slot and ends *)
+Theorem ets_arrays_at_most_half_full : forall acc c k a, reach estep (einit_ets acc) c ->
+  nth_error (e_arrs (fst c)) k = Some a -> (2 * length (a_keys a) <= 2 ^ a_lg a)%nat.
+Proof. exact ets_density_proof. Qed.
+Print Assumptions ets_arrays_at_most_half_full.
+
+(* a thread is given at most one element (create_local runs at most once per thread) ... *)
+Theorem ets_one_element_per_thread : forall acc c t, reach estep (einit_ets acc) c -> (getn (e_created (fst c)) t <= 1)%nat.
+Proof. exact ets_one_element_proof. Qed.
+Print Assumptions ets_one_element_per_thread.
+
+(* ... because once it has one, its key is found again by every later lookup, however the table has grown meanwhile *)
+Theorem ets_key_is_found_again : forall acc c t l, reach estep (einit_ets acc) c ->
+  nth_error (snd c) t = Some l -> el_pc l = ELookup -> getn (e_created (fst c)) t = 1%nat -> find_top (e_arrs (fst c)) t 0 <> None.
+Proof. exact ets_key_stays_proof. Qed.
+Print Assumptions ets_key_is_found_again.
+
+(* nobody ever waits for anybody: every unfinished thread can take its next step *)
+Theorem ets_lookup_never_blocks : forall acc c t l, reach estep (einit_ets acc) c ->
+  nth_error (snd c) t = Some l -> el_pc l <> EDone -> step_at estep c t <> None.
+Proof. exact ets_never_blocked_proof. Qed.
+Print Assumptions ets_lookup_never_blocks.
+
+Example ets_example : run_etsseq [3; 0; 1; 2; 0; 1]%Z = [3; 2; 2; 2; 3; 3; -7; 1; 1; 1]%Z.
+Proof. vm_compute. reflexivity. Qed.
